@@ -3340,3 +3340,74 @@ func ruleRegistryKeyFresh(r *Run) {
 	}
 	r.Min("registry_insertions_with_generated_ids", n, 3)
 }
+
+// ---------------------------------------------------------------------------
+// R-HEADING-PER-ELEMENT (C15): "a table of contents lists exactly the headings up to the requested
+// level".  Whether a heading becomes an entry may depend on that paragraph (its style level, its
+// text) and on the requested level — not on what earlier iterations of the collecting loop have
+// seen.  A filter fed by loop-carried state (a `seen` map keyed by the bookmark name) drops the
+// second "Summary" heading.  In every loop over Body.Elements that appends TOCEntry values, the
+// conditions on the way to the append must not read a map or slice that the same loop updates.
+// ---------------------------------------------------------------------------
+
+func ruleHeadingPerElement(r *Run) {
+	p := r.P
+	sl := newSlicer(p)
+	sl.dataOnly = true
+	n := 0
+	for _, fn := range p.ModFuncs() {
+		if fn.Pkg == nil || fn.Pkg.Pkg.Path() != pkgDoc {
+			continue
+		}
+		for _, l := range naturalLoops(fn) {
+			ri := rangeOf(l)
+			if ri == nil || !isBodyElements(p, ri.X) {
+				continue
+			}
+			var app *ssa.Call
+			for b := range l.Body {
+				for _, in := range b.Instrs {
+					if c, ok := in.(*ssa.Call); ok {
+						if bi, ok := c.Call.Value.(*ssa.Builtin); ok && bi.Name() == "append" {
+							if st, ok := c.Type().Underlying().(*types.Slice); ok && typeIs(st.Elem(), pkgDoc, "TOCEntry") {
+								app = c
+							}
+						}
+					}
+				}
+			}
+			if app == nil {
+				continue
+			}
+			n++
+			// containers updated inside the loop
+			updated := map[ssa.Value]bool{}
+			for b := range l.Body {
+				for _, in := range b.Instrs {
+					if mu, ok := in.(*ssa.MapUpdate); ok {
+						updated[mu.Map] = true
+					}
+				}
+			}
+			bad := ""
+			for b := range l.Body {
+				if len(b.Instrs) == 0 || b == l.Header {
+					continue
+				}
+				iff, ok := b.Instrs[len(b.Instrs)-1].(*ssa.If)
+				if !ok || !b.Dominates(app.Block()) {
+					continue
+				}
+				res := sl.Slice(iff.Cond)
+				for v := range res.Vals {
+					if lk, ok := v.(*ssa.Lookup); ok && updated[lk.X] {
+						bad = "the branch at " + p.pos(iff.Cond.Pos()) + " consults a map that the loop itself fills"
+					}
+				}
+			}
+			r.Check("heading-per-element", shortName(fn), app.Pos(), bad == "",
+				fmt.Sprintf("%s collects TOC entries in a loop over Body.Elements; whether a heading is listed must depend on that heading alone: %s", shortName(fn), map[bool]string{true: "no loop-carried filter", false: bad + " — a later heading with the same text (or the same generated bookmark name) is silently left out of the table of contents"}[bad == ""]))
+		}
+	}
+	r.Min("heading_collecting_loops", n, 2)
+}
